@@ -4,6 +4,7 @@ import Ovsdb.CodecCache
 import Ovsdb.Model.Cond
 import Ovsdb.CodecUpdates
 import Ovsdb.CodecTxn
+import Ovsdb.Spec.Rfc
 /-
   Line-protocol driver: one JSON request per line on stdin, one JSON answer per
   line on stdout.  {"fn": name, ...inputs} -> {"ok": result} | {"error": text}
@@ -121,6 +122,29 @@ def dbHistory (j : Json) : P Json := do
       ("notifs2", listToJson (fun m => listToJson notif2ToJson (filter2 m r.updates)) mons)])
   return .arr out
 
+/-- the RFC reference interpreter over a history; `accepted[i]` says whether the
+    implementation accepted transaction i (a rejected one leaves the state alone) -/
+def rfcHistory (j : Json) : P Json := do
+  let σ ← dbModelOfJson (← jField j "model")
+  let txns ← jArr (← jField j "txns")
+  let accepted ← jList jBool (← jField j "accepted")
+  let mut st : Rows := (Database.empty σ).toRows
+  let mut out : Array Json := #[]
+  for (t, acc) in txns.zip accepted do
+    let ops ← jList operationOfJson (← jField t "ops")
+    if !acc then
+      out := out.push (Json.mkObj [("skipped", .bool true)])
+    else
+      match Rfc.transaction σ st ops with
+      | none => out := out.push (Json.mkObj [("rejected", .bool true)])
+      | some (rs, st') =>
+        st := st'
+        out := out.push (Json.mkObj [
+          ("results", listToJson (fun (r : Rfc.Result) => Json.mkObj [("count", .num ⟨r.count, 0⟩), ("uuid", .str r.uuid),
+            ("rows", listToJson (fun (p : UUID × Row) => Json.mkObj [("uuid", .str p.1), ("row", rowToJson p.2)]) r.rows)]) rs),
+          ("rows", rowsToJson st)])
+  return .arr out
+
 def expandNamedFn (j : Json) : P Json := do
   let σ ← dbModelOfJson (← jField j "model")
   let ops ← jList operationOfJson (← jField j "ops")
@@ -148,6 +172,7 @@ def dispatch (fn : String) (j : Json) : P Json := do
     let b ← optValueOfJson (← jField j "b")
     return resPair (mergeDifference o a b)
   | "dbHistory" => dbHistory j
+  | "rfcHistory" => rfcHistory j
   | "expandNamedUUIDs" => expandNamedFn j
   | "updatesChain" => updatesChain j
   | "mergeModifyRow" => mergeModifyRowFn j
